@@ -93,6 +93,127 @@ def _find(tree, qual):
     return node
 
 
+# ------------------------------------------------------------------ write_gmx_topology: groups of successive molecules
+FT = 'vermouth/gmx/topology.py'
+Count = TTuple(TStr, TInt)
+Written = TTuple(TStr, Mol)
+
+
+def setup_top(cx):
+    eng = cx.eng
+    from pyvc.values import IterV
+    from pyvc.builtins import _int, list_append, StatefulIter
+    mols = cx.val('molecules', TSeq(Mol))
+    cx.spec_env['all_mols'] = mols
+    mty = TSeq(Mol)
+    me = to_z3(mols)
+    moltype = cx.uf('moltype', [Mol], TStr)                # molecule.meta['moltype']
+    has_ff = cx.uf('has_ff', [Mol], TBool)
+    ncit = cx.uf('ncit', [Mol], TInt)
+    m_ = z3.Const('m', Mol.sort())
+    cx.assume(z3.ForAll([m_], ncit(m_) >= 0))
+    # assumed contract of itertools.groupby(seq, key): the maximal runs of successive elements with equal keys, in order
+    G = z3.Int('n_groups')
+    cx.spec_env['n_groups'] = SV(TInt, G)
+    start = cx.uf('g_start', [TInt], TInt)
+    size = cx.uf('g_size', [TInt], TInt)
+    g, i = z3.Ints('g i')
+    n = mty.len(me)
+    cx.assume(z3.And(G >= 0, (G == 0) == (n == 0), start(0) == 0, start(G) == n))
+    cx.assume(z3.ForAll([g], z3.Implies(z3.And(0 <= g, g < G), z3.And(size(g) >= 1, start(g + 1) == start(g) + size(g), start(g) >= 0,
+                                                                     start(g) + size(g) <= n)), patterns=[size(g)]))
+    cx.assume(z3.ForAll([g], z3.Implies(z3.And(0 <= g, g + 1 < G), moltype(mty.at(me, start(g))) != moltype(mty.at(me, start(g + 1)))),
+                        patterns=[size(g)]))
+    WRITTEN = cx.heap('WRITTEN', Box(TSeq(Written)))       # write_molecule_itp(molecule, <moltype>.itp) calls, in order
+    groups = IterV(G, lambda k: (SV(TStr, moltype(mty.at(me, start(_int(k))))),
+                                 StatefulIter(IterV(size(_int(k)), lambda j: SV(Mol, mty.at(me, start(_int(k)) + _int(j)))))))
+    eng.attr_hooks[('Mol', 'force_field')] = lambda e, m: (Obj('ForceField', citations=Obj('citations'))
+                                                           if e.branch(has_ff(to_z3(m, Mol))) else None)
+
+    def meta(e, m):
+        o = Obj('meta')
+        o.attrs['__getitem__'] = Builtin(lambda e2, k: SV(TStr, moltype(to_z3(m, Mol))) if k == 'moltype' else
+                                         (_ for _ in ()).throw(EngineError('meta[%r]' % (k,))), 'meta[]')
+        return o
+    eng.attr_hooks[('Mol', 'meta')] = meta
+    eng.attr_hooks[('Mol', 'citations')] = lambda e, m: IterV(ncit(to_z3(m, Mol)), lambda j: Obj('citation'))
+    cx.spec_env['ChainMap'] = Builtin(lambda e, *a: Obj('ChainMap', __getitem__=Builtin(lambda e2, k: Obj('entry'), 'map[]')), 'ChainMap')
+    cx.spec_env['COMMON_CITATIONS'] = Obj('COMMON_CITATIONS', __getitem__=Builtin(lambda e2, k: Obj('entry'), 'map[]'))
+    cx.spec_env['citation_formatter'] = Builtin(lambda e, c: SV(TStr, e.fresh(TStr, 'cite')), 'citation_formatter')
+    log = Obj('LOGGER')
+    log.attrs['info'] = Builtin(lambda e, *a, **k: None, 'LOGGER.info')
+    cx.spec_env['LOGGER'] = log
+    opened = {}
+
+    def deferred_open(e, name, mode):
+        h = Obj('outfile')
+        h.__dict__['name'] = name
+        return h
+    cx.spec_env['deferred_open'] = Builtin(deferred_open, 'deferred_open')
+    fmt_itp = cx.uf('itp_name', [TStr], TStr)
+    eng.format_hooks['{}.itp'] = lambda e, mt: SV(TStr, fmt_itp(to_z3(mt, TStr)))
+
+    def write_itp(e, molecule, outfile, header=None):
+        nm = outfile.__dict__['name']
+        list_append(e, WRITTEN, (nm, molecule))
+    itp = Obj('itp', write_molecule_itp=Builtin(write_itp, 'write_molecule_itp'))
+    cx.spec_env['vermouth'] = Obj('vermouth', gmx=Obj('gmx', itp=itp))
+    header = cx.box('header', TSeq(TStr))
+    cx.assume(TSeq(TStr).len(header.e) >= 1)
+    return dict(molecule_groups=groups, header=header, moltype_written=Box(TSet(TStr)), moltype_count=Box(TSeq(Count)),
+                max_name_length=0)
+
+
+SPEC_TOP = {
+    'gtype': "lambda g: moltype(all_mols[g_start(g)])",
+    # the first group in which a molecule type occurs
+    'first_group': "lambda g: forall(lambda h: implies(0 <= h and h < g, gtype(h) != gtype(g)))",
+}
+COUNTS = ("len(moltype_count) == {G} and forall(lambda g: implies(0 <= g and g < {G}, moltype_count[g][0] == gtype(g) and "
+          "moltype_count[g][1] == g_size(g)))")
+WRITES = [
+    "forall(lambda w: implies(0 <= w and w < len(WRITTEN), 0 <= g_wsrc[w] and g_wsrc[w] < {G} and first_group(g_wsrc[w]) and "
+    "   WRITTEN[w][0] == itp_name(gtype(g_wsrc[w])) and WRITTEN[w][1] == all_mols[g_start(g_wsrc[w])]))",
+    "forall(lambda w, v: implies(0 <= w and w < v and v < len(WRITTEN), g_wsrc[w] < g_wsrc[v]))",
+    "forall(lambda g: implies(0 <= g and g < {G} and not (g in g_wpos), 0 <= g_dup[g] and g_dup[g] < g and gtype(g_dup[g]) == gtype(g)))",
+    "forall(lambda g: implies(g in g_wpos, 0 <= g and g < {G} and 0 <= g_wpos[g] and g_wpos[g] < len(WRITTEN) and g_wsrc[g_wpos[g]] == g))",
+    "forall(lambda t: implies(t in moltype_written, t in g_tw and 0 <= g_tw[t] and g_tw[t] < {G} and gtype(g_tw[t]) == t), TStr)",
+    "forall(lambda g: implies(0 <= g and g < {G}, gtype(g) in moltype_written))",
+    "len(g_wsrc) == len(WRITTEN)",
+]
+top_groups = FunctionContract(
+    FT, 'write_gmx_topology', 'C03', short='write_gmx_topology[groups]', setup=setup_top, spec_defs=SPEC_TOP, spec_env=dict(Mol=Mol),
+    region=dict(start="for moltype, molecules in molecule_groups:", end="template = textwrap.dedent("),
+    locals=dict(moltype_count=TSeq(Count), moltype_written=TSet(TStr), g_wsrc=TSeq(TInt), g_wpos=TMap(TInt, TInt),
+                g_dup=TMap(TInt, TInt), g_tw=TMap(TStr, TInt)),
+    requires=["len(old(WRITTEN)) == 0"],
+    ghost_at={'entry': "g_wsrc = []\ng_wpos = {}\ng_dup = {}\ng_tw = {}"},
+    ensures=[
+        # the [ molecules ] entries: one per group of successive molecules of one type, in order, with the size of the group
+        COUNTS.format(G='n_groups'),
+        # one ITP per molecule type: written for the first molecule of the first group of that type, under that type's name,
+        # and never again
+        WRITES[0].format(G='n_groups'), WRITES[1],
+        # (a group without a write of its own repeats the type of an earlier group)
+        WRITES[2].format(G='n_groups'), WRITES[3].format(G='n_groups'),
+    ],
+    modifies=['WRITTEN', 'header'],
+    loops={
+        'L1': LoopSpec(inv=[COUNTS.format(G='_i')] + [w.format(G='_i') for w in WRITES] + ["len(header) >= 1"],
+                       modifies=['WRITTEN', 'header', 'moltype_count', 'moltype_written', 'g_wsrc', 'g_wpos', 'g_dup', 'g_tw'],
+                       locals=dict(moltype_count=TSeq(Count), moltype_written=TSet(TStr), g_wsrc=TSeq(TInt), g_wpos=TMap(TInt, TInt),
+                                   g_dup=TMap(TInt, TInt), g_tw=TMap(TStr, TInt), g_w0=TInt, max_name_length=TInt),
+                       ghost_pre="g_w0 = len(WRITTEN)\ng_seen = moltype in moltype_written",
+                       ghost_end="if len(WRITTEN) > g_w0:\n    g_wsrc.append(_i)\n    g_wpos[_i] = g_w0\n"
+                                 "if g_seen:\n    g_dup[_i] = g_tw[moltype]\nelse:\n    g_tw[moltype] = _i"),
+        'L1.1': LoopSpec(inv=["len(header) >= 1", "len(WRITTEN) == g_w0"], modifies=['header']),
+    },
+    canary=[("moltype_count.append([moltype, 1 + len(list(molecules))])", "moltype_count.append([moltype, len(list(molecules))])"),
+            ("if moltype not in moltype_written:", "if True:")],
+)
+CONTRACTS.append(top_groups)
+
+
 def extra_obligations(tier):
     obs = []
 
